@@ -11,6 +11,7 @@ def run(prog, rep, tier):
                   "domain class and STV, each value its `show` switch renders is a vocabulary word registered with that value in the domain of that "
                   "very machine.")
     rep.not_decided = "that every symbol-table entry is yielded exactly once, in table order, numbered from zero, with the stored name/value/size."
+    apply(rep, "W2b", "ELF-domain constants built from symbol fields go through the matching extraction macro", r_elf.w2b(prog), 5)
     apply(rep, "W2", "GELF_ST_* macro paired with its domain and the symbol's machine", r_elf.w2(prog), 6)
     apply(rep, "Z1e", "per-machine ELF constant names round-trip", r_elf.z1elf(prog), 7)
     maybe_mutants("C18", rep, tier)
